@@ -153,7 +153,10 @@ type c06In struct {
 	// Pre: a filter that runs before the Validator and leaves the request as it is: "" none,
 	// setpath = req.SetPath(req.Path()), trim / regexp / replace = RequestAdaptor with a path rule
 	// that does not change this path
-	Pre  string   `json:"pre,omitempty"`
+	Pre string `json:"pre,omitempty"`
+	// TZ != 0: time.Local is a fixed zone of that many seconds east of UTC while the case runs
+	// (the verdict must not depend on the zone of the process)
+	TZ   int      `json:"tz,omitempty"`
 	Muts []c06Mut `json:"muts"`
 	// JNow: virtual unix time for jwt (jwt.TimeFunc); 0 = the real clock, jwt.TimeFunc untouched
 	JNow int64 `json:"jnow"`
